@@ -206,7 +206,7 @@ def pairing_ids(exe):
 
 
 def streams(ctx, scale=1):
-    per = (110 if ctx.tier == "quick" else 6000) * scale
+    per = (110 if ctx.tier == "quick" else 2000) * scale
     res = []
     cfgs = ["base"] + (["p381"] if ctx.tier == "thorough" else [])
     for cfg in cfgs:
